@@ -49,6 +49,8 @@ def gen_spec(rng, kind: Optional[str] = None, thorough: bool = False, inputs=("c
     elif kind == "MACD":
         f = rng.randint(2, max(3, hi // 2))
         kw.update(fast_period=f, slow_period=f + rng.randint(1, max(2, hi // 2)), signal_period=rng.randint(2, 9))
+        if rng.random() < 0.2:      # periods given the wrong way round (the constructor reorders them)
+            kw["fast_period"], kw["slow_period"] = kw["slow_period"], kw["fast_period"]
     elif kind == "STOCH":
         kw.update(period=p, slow_period=rng.randint(2, 4), smoothing_k=rng.randint(2, 4))
     elif kind == "TSI":
@@ -62,9 +64,14 @@ def gen_spec(rng, kind: Optional[str] = None, thorough: bool = False, inputs=("c
     elif kind == "VWAP":
         pass
     elif kind == "COUNTER":
-        kw.update(input_value=rng.choice(["positive", "negative", "flag"]), count_value=True)
+        kw.update(input_value=rng.choice(["positive", "negative", "flag"]), count_value=rng.choice([True, True, True, False]))
     elif kind == "AMORPH":
-        spec["analysis"] = A.gen_spec(rng)
+        spec["analysis"] = A.gen_spec(rng, rng.choice(sorted(A.CROSS)) if rng.random() < 0.25 else None)
+        # the engine cases carry the readings "src" and "flag", not the analysis cases' "a"/"b"
+        ren = {"a": rng.choice(["close", "src", "high"]), "b": rng.choice(["open", "low", "src"])}
+        for key in ("a", "b", "name"):
+            if spec["analysis"].get(key) in ren:
+                spec["analysis"][key] = ren[spec["analysis"][key]]
     if kind in HAS_INPUT:
         kw["input_value"] = rng.choice(list(inputs))
     if kind == "EMA" and rng.random() < 0.2:
